@@ -23,3 +23,12 @@ P["C08"] = {
     "explanation": "exhaustive=true (thorough) refers to the sub-universe `all moduli below 2^7 x all operand pairs` for the binary word-level primitives; the rest is sampled.",
     "assumptions": ["u128 arithmetic of rustc (multiply_u64_u64, divide_u128_u64_inplace) is exact", "divide_u192_u64_inplace is modelled inside Modulus.mk? by its quotient/remainder and tied by correspondence (modulus_new cases)"],
 }
+
+P["C09"] = {
+    "lean_modules": ["Heathcliff.Props.C09"],
+    "level": "proof",
+    "runs": lambda tier, seed: [{"seed": seed}],
+    "search": lambda tier, seed: [{"seed": seed * 7919 + i} for i in range(2)],
+    "rule": "Degrees 2..2^8 (thorough 2^11), NTT-friendly primes of the smallest admissible size up to 61 bits (from get_primes), tables built twice independently; all N unit vectors for small N (the map is linear), all-(q-1), lazy-range maxima (<4q forward, <2q inverse), random vectors; convolution via ntt/dyadic/intt against the explicit negacyclic double sum; composite moduli = 1 mod 2N and non-NTT-friendly moduli must be refused.",
+    "assumptions": ["the random search for *some* primitive root (rand::thread_rng) is an input of the model (any primitive root gives the same minimal root when q is prime: theorem root_deterministic)"],
+}
